@@ -275,13 +275,13 @@ theorem updateColumns_ok_default (strict : Bool) (r r' : Reg) (f : Frame)
   apply updLoop_default strict f.cols _ r2 hl hnd c hc
   rw [get_restrict]; simp [hin, hnone]
 
-/-- the part that unit setters can break: the remembered validated state is consistent -/
+/-- the part that unit setters can break: a state remembered as validated under the strict flag is consistent -/
 def GoodC (i : Info) : Prop :=
-  ∀ f0, i.last = some f0 → f0.empty = false → i.strict = true → ConsReg i.reg f0
+  ∀ f0, i.last = some f0 → f0.empty = false → i.lastStrict = true → ConsReg i.reg f0
 
 theorem checkDataframe_goodC (i : Info) (f : Frame) (h : GoodC i) : GoodC (checkDataframe i f).1 := by
   unfold checkDataframe
-  by_cases hl : i.last = some f
+  by_cases hl : i.last = some f ∧ i.lastStrict = i.strict
   · simpa [hl] using h
   · simp only [hl, if_false]
     cases hu : updateColumns i.strict i.reg f with
